@@ -167,3 +167,25 @@ CHECKS["C04"] = {
         {"name": "programs", "run": "^TestC04Programs$", "kind": "rapid", "checks": {"quick": 8000, "thorough": 160000}, "shards": {"quick": 8, "thorough": 16}},
     ],
 }
+
+CHECKS["C19"] = {
+    "pkg": "props/c19",
+    "level": "exploration",
+    "rule": "Connection histories served by the real engine with a recording tracer (server.WithTracer): 0..5 requests, each with an outcome from {ok, handler panic + recovery middleware, malformed header, body too large, peer closes mid-body, hijack, Expect: 100-continue, streamed body partially read, write error injected at the middle of that response}; "
+            "end of connection {peer EOF, idle timeout (scripted timeout error), Connection: close}; trace level {disabled, base, detailed}; IdleTimeout non-zero (in-loop keep-alive) or zero (protocol server returns to the poller after each request; re-entered while data is readable); buffered/streaming; optional segmentation. "
+            "exhaustive unit: all histories of <=3 requests x all configurations. Non-trivial = >=2 requests, or a non-ok outcome, or a keep-alive connection ended by the peer/idle timeout; distinct by FNV-64 of the history.",
+    "assumptions": [
+        "a start/finish pair without request data is accepted only for a connection that sent nothing",
+        "for rejected requests (malformed, too large in buffered mode, truncated body) the pair must exist but the data its Finish carries is not asserted",
+        "stage timestamps are those hertz recorded itself and are compared with <= (no tolerance needed); events absent because of the trace level are not required",
+        "the return-to-poller mode is emulated by re-entering engine.onData while unread data remains, as a poller-based transport does",
+    ],
+    "level_text": "Random + bounded-exhaustive exploration of connection histories against an alternation automaton (S F)*, an exact pair count per started request, request identity in Finish, and stage ordering/closure read inside Finish.",
+    "level_note": "Trusts the recording tracer and the scripted connection; netpoll's real idle handling is emulated, not run.",
+    "technique": "property-based testing (rapid) + bounded-exhaustive history enumeration against a trace automaton",
+    "nontrivial_floor": 300,
+    "units": [
+        {"name": "exhaustive", "run": "^TestC19Exhaustive$", "kind": "plain", "shards": 8},
+        {"name": "histories", "run": "^TestC19Histories$", "kind": "rapid", "checks": {"quick": 6000, "thorough": 120000}, "shards": {"quick": 8, "thorough": 16}},
+    ],
+}
